@@ -179,22 +179,26 @@ def through_cache(ctx, g, hashes):
                 cache = dpapi_ng.KeyCache()
                 cache.load_key(root, root_key_id=RK, kdf_parameters=g.KDFParameters(hn.upper()).pack())
                 with toycrypto.recording() as rlog:
-                    dpapi_ng.ncrypt_protect_secret(b"x", sid, root_key_identifier=RK, cache=cache)
-                    spec = SpecChain(lambda k, cc, hn=hn: kbkdf_hmac(hn, k, LABEL, cc, 64), root, sd, 361)
-                    for (r1, r2) in ((n1, n2), (n1, 0), (17, 13), (0, 0), (max(n1 - 1, 0), 31)):
-                        if (r1, r2) > (n1, n2):
-                            continue
+                    # the same cache serves two protection descriptors in a row: each must get the chain bound to ITS security descriptor
+                    for sid_i in (sid, "S-1-5-18"):
+                        sd_i = ProtectionDescriptor.parse(sid_i).get_target_sd()
                         rlog.reset_budget()
-                        try:
-                            env = cache._get_key(sd, RK, 361, r1, r2)
-                            got = g.compute_l2_key(h, r1, r2, env)
-                        except Exception as e:  # noqa
-                            got = ("raised " + type(e).__name__).encode()
-                        ctx.count("through_cache_after_protect")
-                        if got != spec.K2[(r1, r2)]:
-                            ctx.violation("after a protect call the cache hands out seed material from which the wrong key derives",
-                                          {"hash": hn, "protect_at": [361, n1, n2], "request": [r1, r2], "scenario": "through_cache"}, hx(got)[:32], hx(spec.K2[(r1, r2)])[:32])
-                            return
+                        dpapi_ng.ncrypt_protect_secret(b"x", sid_i, root_key_identifier=RK, cache=cache)
+                        spec = SpecChain(lambda k, cc, hn=hn: kbkdf_hmac(hn, k, LABEL, cc, 64), root, sd_i, 361)
+                        for (r1, r2) in ((n1, n2), (n1, 0), (17, 13), (0, 0), (max(n1 - 1, 0), 31)):
+                            if (r1, r2) > (n1, n2):
+                                continue
+                            rlog.reset_budget()
+                            try:
+                                env = cache._get_key(sd_i, RK, 361, r1, r2)
+                                got = g.compute_l2_key(h, r1, r2, env)
+                            except Exception as e:  # noqa
+                                got = ("raised " + type(e).__name__).encode()
+                            ctx.count("through_cache_after_protect")
+                            if got != spec.K2[(r1, r2)]:
+                                ctx.violation("after a protect call the cache hands out seed material from which the wrong key derives",
+                                              {"hash": hn, "protect_at": [361, n1, n2], "sid": sid_i, "request": [r1, r2], "scenario": "through_cache"}, hx(got)[:32], hx(spec.K2[(r1, r2)])[:32])
+                                return
             finally:
                 c.time = old
 
